@@ -40,6 +40,21 @@ package raft
 //@   ensures forall(p, SIn(as(data, decrUint64Slice), p) ==> SIn(as(data, decrUint64Slice), gperm(old(sortgen), p)) && raw(as(data, decrUint64Slice), p) == old(raw(as(data, decrUint64Slice), gperm(sortgen, p))) && ginv(old(sortgen), gperm(old(sortgen), p)) == p)
 //@   ensures forall(p, SIn(as(data, decrUint64Slice), p) ==> SIn(as(data, decrUint64Slice), ginv(old(sortgen), p)) && gperm(old(sortgen), ginv(old(sortgen), p)) == p && raw(as(data, decrUint64Slice), ginv(old(sortgen), p)) == old(raw(as(data, decrUint64Slice), p)))
 
+// the order sort.Sort establishes is the one these three methods define: the trusted contract of sort.Sort above
+// (decreasing, a permutation) holds for an implementation of sort.Interface that meets these contracts
+//@ func (decrUint64Slice).Less
+//@   props C02 C06 C09 C11 C19
+//@   requires 0 <= i && i < len(s) && 0 <= j && j < len(s)
+//@   ensures [C02+C09.decreasing-order] result0 == (s[i] > s[j])
+//@ func (decrUint64Slice).Len
+//@   props C02 C06 C09 C11 C19
+//@   ensures result0 == len(s)
+//@ func (decrUint64Slice).Swap
+//@   props C02 C06 C09 C11 C19
+//@   requires 0 <= i && i < len(s) && 0 <= j && j < len(s)
+//@   modifies contents(s)
+//@   ensures s[i] == old(s[j]) && s[j] == old(s[i]) && forall(k, 0 <= k && k < len(s) && k != i && k != j ==> s[k] == old(s[k]))
+
 //@ func (*leader).majorityMatchIndex
 //@   requires l.Raft != nil && l.storage != nil && MajorityPre(l)
 //@   modifies sortgen
